@@ -91,13 +91,16 @@ const c19Rich = `Shop [owner="alice", team="red", ~web]:
     /customers:
         GET:
             return ok <: sequence of Customer
+            return 200 <: Order
+            return fail <: string
+            return oops <: Item
     Ship:
         Bank <- Charge [~tls, ~json, ~async, ~retry]
         Depot <- Pick [~grpc, ~mtls, ~batch]
         if urgent:
             Depot <- Rush
         return ok <: Order
-Bank [team="blue", owner="bob", ~db]:
+Bank [team="blue", owner="bob", ~db, ~external, ~file]:
     !type Receipt:
         ref <: string
         amount <: decimal
@@ -114,7 +117,7 @@ Depot [team="red", owner="carol"]:
         Shop <- Ship
     Rush:
         ...
-Ledger [team="blue"]:
+Ledger [team="blue", ~topic, ~ui, ~cron]:
     Post:
         ...
 Web [team="green", owner="dan"]:
